@@ -62,7 +62,9 @@ def validate(c, module, cfg, events, is_reset=lambda e: e.get("ev") == "Reset", 
 
 
 def short(e, drop=("obs", "conc", "world", "src", "masked")):
-    return {k: v for k, v in e.items() if k not in drop and v not in ([], "", 0, False) or k in ("res", "got", "cl")}
+    keep = {"Dispatch": ("dst", "res", "cl"), "Recv": ("pfx", "got"), "Close": ("pfx", "res"), "ListenConfig": ("pfx", "res"),
+            "Add": ("res",)}.get(e.get("ev"), ())
+    return {k: v for k, v in e.items() if k not in drop and (v not in ([], "", 0, False) or k in keep)}
 
 
 def run_models(c):
@@ -164,6 +166,31 @@ def run_btd(c):
             raise Undecided("bindtodevice stepper vacuous: %s missing refusal classes %s" % (
                 {k: v for k, v in n.items() if k != "regerr"}, sorted(miss)))
     c.sample({"bindtodevice_first_events": [short(e) for e in ev[:10]]})
+
+    # the registration decision table, all call sequences of the given depth on the real Manager
+    out1, _ = c.go_harness("internal/bindtodevice", "^TestVerifEXT4RegTable$", env={"VERIF_DEPTH": 3 if th else 2})
+    ev1 = read_ndjson(out1)
+    tfails, _ = validate(c, "TraceBindToDevice", "TraceBindToDevice.cfg", ev1, timeout=1500)
+    calls = [e for e in ev1 if e["ev"] in ("Add", "ListenConfig")]
+    if len(calls) < 3000:
+        raise Undecided("registration table vacuous: %d calls" % len(calls))
+    seq = []
+    for e in ev1:
+        if e["ev"] == "Reset":
+            seq = []
+        elif e["ev"] in ("Add", "ListenConfig"):
+            seq.append((e["ev"], e["id"], e["ifn"], e["port"], tuple(e["pfx"]), e["masked"]))
+            c.count_case(("table", tuple(seq)), nontrivial=len(seq) > 1)
+    c.notes.append("bindtodevice registration table: %d calls in %d sequences, outcomes %s" % (
+        len(calls), sum(1 for e in ev1 if e["ev"] == "Reset"),
+        {k: sum(1 for e in calls if e["res"] == k) for k in sorted(set(e["res"] for e in calls))}))
+    for sg, idx, reason in tfails:
+        e = sg[idx]
+        c.violation({"kind": "bindtodevice-registration", "ev": e.get("ev"), "res": e.get("res", "")},
+                    "EXT4 bindtodevice registration table: %s at call %d of %s: %s answered %r (%s); contract: see "
+                    "AddReasons / LCReasons of specs/BindToDevice.tla" % (
+                        reason, idx, [x.get("conc") for x in sg[1:idx + 1]], e.get("conc"), e.get("res"), e.get("err")),
+                    {"segment": sg[:idx + 1], "offending_index": idx, "reason": reason})
 
     # the real read loops over loop-back
     out2, _ = c.go_harness("internal/bindtodevice", "^TestVerifEXT4E2E$",
